@@ -122,8 +122,9 @@ func VH_stree_CursorMoves() {
 	nv.check(c, start, "start")
 	// subtree iteration and ordering of what is reachable through Left/Right
 	var sub, want []vKT
-	c.Inorder(func(k vKT) bool { sub = append(sub, k); return true })
 	vWalk(start, &want)
+	vInorderReuse(c, want)
+	c.Inorder(func(k vKT) bool { sub = append(sub, k); return true })
 	vAssert(vSameSeq(sub, want), "cursor Inorder lists exactly its subtree in ascending order")
 	var lk, rk []vKT
 	c.Clone().Left().Inorder(func(k vKT) bool { lk = append(lk, k); return true })
